@@ -13,7 +13,7 @@ from .. import build, tlc, run, idb, cpplib
 
 BATCH = 200
 QUICK = ["Export_sections", "Export_kinds", "Export_nested", "Export_files", "Export_filetops", "Export_tops", "Export_tops2", "Export_cmds"]
-THOROUGH = [c + "_t" for c in QUICK]
+THOROUGH = ["Export_sections"] + [c + "_t" for c in QUICK]
 
 
 # ---- known-finding classes: predicates over the INPUT library only ---------------------------------
